@@ -37,12 +37,25 @@ add(_alloc_cfg('pocca_pocma', 1, 1, 0, 0))
 add(_alloc_cfg('pocca_pocs', 1, 0, 1, 0))
 add(_alloc_cfg('pocma_pocs', 0, 1, 1, 0))
 
+# nothrow moves but a throwing ADL swap, always-equal allocator: is_nothrow_swappable decides noexcept (swap) (C18), and the C++11/14
+# fallback trait for it must agree with std::is_nothrow_swappable (C17)
+TSWAP_ONLY = ['sv_swap', 'svb_swap__psvb', 'svb_swap_default', 'svb_swap_elements', 'nm_swap__psv_psv']
+for _nm, _std, _extra in (('tswap_aeq', 'c++20', dict(props=['C18', 'C17'])), ('tswap_aeq11', 'c++11', dict(props=['C17'], dedupe_against='tswap_aeq'))):
+    _cf = _alloc_cfg(_nm, 0, 0, 0, 1, only=TSWAP_ONLY, std=_std, **_extra)
+    _cf['defines'] = _cf['defines'] + ['VT_SWAP_NOEXCEPT=0']
+    _cf['model_defines'] = dict(_cf['model_defines'], SWAP_MAY_THROW=1)
+    _cf['facts'] = dict(_cf['facts'], SWAP_NOEXCEPT=0)
+    add(_cf)
+
 # capacity pairs: conversions between containers of different inline capacity (source role M)
 PAIR_ONLY = ['svb_ctor__psvbM', 'svb_move_assign_default__psvbM', 'svb_move_assign__psvbM', 'svb_copy_assign_default__pcsvbM', 'svb_copy_assign__pcsvbM',
              'svb_ctor__psvbM', 'svb_ctor__pcsvbM_pcA', 'svb_move_assign_unequal_no_propagate__psvbM', 'sv_assign__psvM', 'sv_assign__pcsvM']
 _PF = {'MOVE_NOEXCEPT': 1, 'COPYABLE': 1, 'RELOCATE_WITH_MOVE': 1, 'POCCA': 0, 'POCMA': 0, 'POCS': 0, 'ALWAYS_EQUAL': 0}
 add(_c('pair_lt', N=3, M=2, only=PAIR_ONLY, facts=dict(_PF, M_LT_N=1, M_GT_N=0)))      # source inline capacity smaller than the destination's
 add(_c('pair_gt', N=3, M=5, only=PAIR_ONLY, facts=dict(_PF, M_LT_N=0, M_GT_N=1)))      # ... larger
+
+# cross-capacity comparisons in their C++11-17 form (C16)
+add(_c('pair17', N=3, M=5, std='c++17', props=['C16'], facts=dict(_PF, M_LT_N=0, M_GT_N=1)))
 
 # inline capacity 0: no inline buffer at all (zero-capacity specialisation of small_vector_data)
 N0_QUICK = ['sv_ctor__psv', 'svb_append_element__pcE', 'svb_append_copies', 'svb_shrink_to_size', 'svb_resize_with__ul_pcE', 'svb_move_assign_default__psvb', 'svb_move_assign__psvb', 'svb_swap__psvb', 'svb_ctor__psvb', 'svb_ctor__ul_pcE_pcA', 'svb_dtor', 'svb_erase_range', 'sv_inlined', 'sv_inline_capacity', 'svb_unchecked_calculate_new_capacity']
@@ -115,8 +128,8 @@ def cfg_defines(cfg):
     return d
 
 TIERS = {
-    'quick': ['main', 'std11', 'std17', 'tmove', 'aprop', 'aeq', 'pocs', 'pocma', 'pair_lt', 'pair_gt', 'n0', 'u8', 'triv', 'triv_na', 'kf_inline_gt_max', 'ce', 'ce_triv'],
-    'thorough': ['main', 'std11', 'std14', 'std17', 'std23', 'tmove', 'aprop', 'aeq', 'pocs', 'pair_lt', 'pair_gt', 'n0_full', 'u8', 'triv', 'triv_na', 'kf_inline_gt_max', 'pocca', 'pocma', 'pocca_pocma', 'pocca_pocs', 'pocma_pocs', 'ce', 'ce_triv'],
+    'quick': ['main', 'std11', 'std17', 'tmove', 'aprop', 'aeq', 'pocs', 'pocma', 'pair_lt', 'pair_gt', 'n0', 'u8', 'triv', 'triv_na', 'kf_inline_gt_max', 'ce', 'ce_triv', 'tswap_aeq', 'tswap_aeq11', 'pair17'],
+    'thorough': ['main', 'std11', 'std14', 'std17', 'std23', 'tmove', 'aprop', 'aeq', 'pocs', 'pair_lt', 'pair_gt', 'n0_full', 'u8', 'triv', 'triv_na', 'kf_inline_gt_max', 'pocca', 'pocma', 'pocca_pocma', 'pocca_pocs', 'pocma_pocs', 'ce', 'ce_triv', 'tswap_aeq', 'tswap_aeq11', 'pair17'],
 }
 
 # ---- quick tier: per property, the proofs run on every change (measured: <= ~10 min on 16 cores each).
@@ -167,7 +180,8 @@ QUICK = {
     'C14': {'main': ['svb_unchecked_calculate_new_capacity', 'svb_append_element__pcE', 'svb_append_copies', 'svb_request_capacity', 'svb_emplace_into_reallocation__pE_pcE',
                      'svb_assign_with_copies', 'svb_copy_assign_default__pcsvb', 'svb_append_range__strong_pcE_pcE', 'svb_resize_with__ul', 'svb_insert_copies@realloc', 'sv_reserve'],
             'n0': ['svb_append_element__pcE', 'svb_unchecked_calculate_new_capacity']},
-    'C17': {'main': ['svb_append_element__pcE', 'svb_emplace_into_current__pE_pcE', 'svb_shrink_to_size', 'svb_move_assign_default__psvb', 'svb_erase_range',
+    'C17': {'tswap_aeq': ['svb_swap_elements', 'svb_swap_default'], 'tswap_aeq11': ['svb_swap_elements', 'svb_swap_default'],
+            'main': ['svb_append_element__pcE', 'svb_emplace_into_current__pE_pcE', 'svb_shrink_to_size', 'svb_move_assign_default__psvb', 'svb_erase_range',
                      'svb_request_capacity', 'ai_external_range_length__pcE_pcE', 'sv_erase__svcit', 'sv_push_back__pcE', 'svb_ctor__ul_pcE_pcA'],
             'std11': ['svb_append_element__pcE', 'svb_emplace_into_current__pE_pcE', 'svb_shrink_to_size', 'svb_move_assign_default__psvb', 'svb_erase_range',
                       'svb_request_capacity', 'ai_external_range_length__pcE_pcE', 'sv_erase__svcit', 'sv_push_back__pcE', 'svb_ctor__ul_pcE_pcA'],
@@ -177,14 +191,15 @@ QUICK = {
                    'svb_dtor', 'svb_ctor__pcA', 'svb_ctor__ul_pcE_pcA', 'svb_move_left__pE_pE_pE', 'svb_assign_with_copies'],
             'ce_triv': ['svb_append_element__pcE', 'svb_emplace_into_current__pE_pcE', 'svb_erase_range', 'svb_append_range__strong_pcE_pcE', 'svb_assign_with_range__pcE_pcE',
                         'svb_move_left__pE_pE_pE', 'svb_ctor__pcE_pcE_pcA', 'svb_resize_with__ul']},
-    'C16': {'main': ['nm_op_eq__pcsv_pcsv', 'nm_size__pcsv', 'nm_swap__psv_psv', 'nm_erase__psv_pcE'],
+    'C16': {'pair17': ['nm_op_eq__pcsv_pcsvM', 'nm_op_ne__pcsv_pcsvM', 'nm_op_lt__pcsv_pcsvM', 'nm_op_lt__pcsvM_pcsv', 'nm_op_ge__pcsv_pcsvM', 'nm_op_ge__pcsvM_pcsv', 'nm_op_gt__pcsv_pcsvM', 'nm_op_le__pcsv_pcsvM'],
+            'main': ['nm_op_eq__pcsv_pcsv', 'nm_size__pcsv', 'nm_swap__psv_psv', 'nm_erase__psv_pcE'],
             'std17': ['nm_op_eq__pcsv_pcsv', 'nm_op_ne__pcsv_pcsv', 'nm_op_lt__pcsv_pcsv', 'nm_op_ge__pcsv_pcsv', 'nm_op_gt__pcsv_pcsv', 'nm_op_le__pcsv_pcsv', 'nm_size__pcsv',
                       'nm_ssize__pcsv', 'nm_empty__pcsv', 'nm_data__psv', 'nm_begin__psv', 'nm_end__psv', 'nm_swap__psv_psv', 'nm_erase__psv_pcE']},
     'C15': {'main': ['ai_external_range_length__FI_FI', 'ai_default_uninitialized_copy__FI_FI_pE', 'svb_append_range__strong_FI_FI', 'ai_external_range_length__pcE_pcE',
                      'svb_ctor__ul_pG_pcA', 'svb_ctor__II_II_pcA', 'svb_append_range__II_II', 'svb_append_range__strong_II_II', 'svb_assign_with_range__II_II', 'svb_insert_range__pE_II_II']},
     'C18': {'pair_gt': ['svb_ctor__psvbM'], 'pair_lt': ['svb_ctor__psvbM'],
             'pocs': ['sv_op_assign__psv', 'sv_swap'], 'pocma': ['sv_op_assign__psv', 'sv_assign__psv', 'sv_swap'], 'aeq': ['sv_op_assign__psv', 'sv_swap'],
-            'tmove': ['sv_ctor__psv', 'sv_op_assign__psv'], 'n0': ['sv_ctor__psv'],
+            'tmove': ['sv_ctor__psv', 'sv_op_assign__psv'], 'n0': ['sv_ctor__psv'], 'tswap_aeq': ['sv_swap', 'svb_swap_elements'],
             'main': ['sv_ctor__pcA', 'sv_ctor__psv', 'sv_op_assign__psv', 'sv_assign__psv', 'sv_swap', 'sv_get_allocator', 'sv_max_size', 'sv_empty', 'ai_external_range_length__FI_FI', 'ai_destroy_range__pE_pE', 'svb_erase_last', 'svb_erase_all', 'svb_erase_to_end', 'svb_dtor', 'svb_ctor__pcA', 'svb_ctor__psvb',
                      'svb_move_assign_default__psvb', 'svb_swap_default', 'sv_size', 'sv_capacity', 'sv_clear', 'sv_pop_back', 'svb_erase_range', 'svb_emplace_into_current__pE_pE']},
 }
